@@ -49,6 +49,10 @@ class ConcreteCtx:
     def oracle(self, v):
         return v
 
+    def select(self, table, idx):
+        """table[idx] for a list of ints and a (possibly symbolic) index"""
+        return table[idx]
+
     def known(self, dev):
         return dev in self.deviations
 
